@@ -6,7 +6,8 @@
      mapproxy/service/wmts.py   WMTSServer.authorize_tile_layer, featureinfo
      mapproxy/service/kml.py    KMLServer.authorize_tile_layer
      mapproxy/image/merge.py    LayerMerger.merge, read pixel by pixel (every Pillow operator used there is
-                                pointwise): per-layer clip, opacity, the three paste paths, global clip, the
+                                pointwise): per-layer clip, opacity, the three paste paths, global clip (as of the fix commits
+                                2542798 and 6ce6a1c of /repo), the
                                 single-layer shortcut
      mapproxy/image/mask.py     mask_image, mask_image_source_from_coverage; the rasterised mask
                                 (image_mask_from_geom) is an input: one bit per pixel, true = outside
@@ -347,6 +348,13 @@ Definition paste_mask_px (dst_rgba : bool) (d s : px) : px :=
 (* dst.paste(src, (0,0)) with an RGB source *)
 Definition paste_px (s : px) : px := set_a s 255.
 
+(* dst.paste(src, (0,0), mask) with an 8 bit mask value m, all bands (an RGB destination keeps a = 255) *)
+Definition paste_l_px (rgba : bool) (m : Z) (d s : px) : px :=
+  let '(dr, dg, db, da) := d in
+  let '(sr, sg, sb, sa) := s in
+  (blend8 m dr sr, blend8 m dg sg, blend8 m db sb, if rgba then blend8 m da sa else 255).
+
+
 (* opacity as an exact fraction num/den (den > 0); validated against Python doubles / C floats for dyadic
    values only (general doubles are the business of C14) *)
 Definition opac := (Z * Z)%type.
@@ -426,16 +434,19 @@ Definition step_px (composite : bool) (m : lmeta) (d s : px) (outside : bool) : 
   else
     match opacity with
     | Some op =>
-      if op_lt1 opacity then blend_px op d (set_a s 255)
+      if op_lt1 opacity then
+        (* blended = Image.blend(result, img.convert(result.mode), opacity);
+           RGBA layer image: result.paste(blended, (0, 0), img.split()[3]), else result = blended *)
+        let b := blend_px op d (set_a s 255) in
+        if alpha then paste_l_px false (px_a s) d b else b
       else if alpha then paste_mask_px false d s else paste_px s
     | None => if alpha then paste_mask_px false d s else paste_px s
     end.
 
-(* global clip: bg.paste(result, (0,0), mask_image(result, ...)) - the mask is an RGBA image whose
-   alpha band is used: alpha of the result inside, 0 outside *)
+(* global clip: result.paste(bg, (0, 0), outside) - `outside` is the L mask of image_mask_from_geom,
+   255 outside the coverage and 0 inside *)
 Definition global_clip_px (o : ropts) (composite : bool) (r : px) (outside : bool) : px :=
-  let m := if outside then clear_px else (if composite then r else set_a r 255) in
-  paste_mask_px composite (create_px o) (set_a r (px_a m)).
+  paste_l_px composite (if outside then 255 else 0) r (create_px o).
 
 (* one pixel column: for every layer its pixel and whether it lies outside the layer's mask *)
 Definition column := list (px * bool).
